@@ -37,6 +37,8 @@ STATUS_MENU = ["200ka", "200close", "short", "body-reset", "body-timeout", "body
                # a retryable status that asks the client to wait: the wait itself is an environment step
                "503ra"]
 SLEEP_MENU = ["ok", "intr"]
+# answers after which the connection is clean and may be kept: complete keep-alive responses
+CLEAN_ANSWERS = frozenset(["200ka", "301", "503", "503ra", "chunked"])
 MENUS = {"connect": CONNECT_MENU, "tunnel": TUNNEL_MENU, "tls": TLS_MENU, "send": SEND_MENU, "status": STATUS_MENU,
          "sleep": SLEEP_MENU}
 
@@ -112,6 +114,7 @@ class C01Server(Server):
     def on_request(self, sock, req, idx):
         w = self.w
         a = w.env.choose("status")
+        w.last_answer[sock.sid] = a
         loc = w.redirect_target
         if a in ("close-body-timeout", "close-body-reset"):
             tail = STALL if a == "close-body-timeout" else ConnectionResetError(errno.ECONNRESET, "reset")
@@ -176,6 +179,7 @@ class World:
         self.env = Env()
         self.flags = []
         self.net = Net(C01Server(self))
+        self.last_answer = {}  # socket id -> what the server did with the last request on it
         self.out = []  # outstanding streaming responses
         self.parked = []  # responses released unread: kept referenced so GC timing plays no role
         self.injected = []  # BaseException objects handed to the code under test
@@ -333,6 +337,22 @@ class World:
             bad("connection-held-twice", len(holders), "one response per connection")
         if hold_ids & {id(c) for c in live}:
             bad("leased-and-queued", "connection both held by a response and idle in the queue", "exclusive")
+        # an open connection waiting in the queue has finished its last exchange: the server's answer was a complete
+        # keep-alive response and every byte of it has been taken off the socket
+        # (not judged when the caller asked for release_conn=True together with preload_content=False: the pool is then
+        # told to take the connection back before the body has been read)
+        early_release = cfg["release"] is True and not cfg["preload"]
+        for c in ([] if early_release else live):
+            so = c.sock
+            if so is None:
+                continue
+            so = so.base if hasattr(so, "base") else so
+            if so.closed:
+                continue
+            la = self.last_answer.get(so.sid)
+            if la is not None and (la not in CLEAN_ANSWERS or so.rx):
+                bad("unfinished-exchange-left-in-pool", {"socket": so.sid, "last_answer": la, "pending": len(so.rx)},
+                    "a connection whose exchange did not end cleanly is closed, not pooled", answer=la)
         if cfg["block"] and len(q) + len(holders) > cfg["maxsize"]:
             bad("slots-exceed-maxsize", len(q) + len(holders), cfg["maxsize"])
         if not self.out:
